@@ -8,7 +8,9 @@ cd /repo || exit 3
 if [ -n "$(git status --porcelain)" ]; then echo "repo not clean" >&2; exit 3; fi
 if ! git apply --check "$patch" 2>/dev/null; then echo "patch does not apply: $patch" >&2; exit 3; fi
 git apply "$patch"
-trap 'cd /repo && git checkout -- . && git clean -fdq -- . >/dev/null 2>&1' EXIT
+# evidence files must only ever describe runs on the unchanged tree: keep them aside
+rm -rf /verif/work/evidence.keep; mkdir -p /verif/work; cp -r /verif/evidence /verif/work/evidence.keep
+trap 'cd /repo && git checkout -- . && git clean -fdq -- . >/dev/null 2>&1; rm -rf /verif/evidence; mv /verif/work/evidence.keep /verif/evidence' EXIT
 if go build ./... >/dev/null 2>&1 && go test -vet=off -count=1 ./... >/tmp/seedtest.suite.$$ 2>&1; then
   echo "suite: passes with the change"
 else
